@@ -68,8 +68,10 @@ class Hierarchical:
             raise NumpyException("The fit function requires Numpy to be installed.")
         nb_series = len(series)
         cluster_idx = dict()
-        self.dists_options['only_triu'] = True
-        dists = self.dists_fun(series, **self.dists_options)
+        # Do not modify the options given by the caller (the dictionary can be shared)
+        dists_options = dict(self.dists_options)
+        dists_options['only_triu'] = True
+        dists = self.dists_fun(series, **dists_options)
         min_value = np.min(dists)
         min_idxs = np.argwhere(dists == min_value)
         if self.order_hook:
